@@ -100,12 +100,42 @@ def oracle(case, impl):
     return None
 
 
+def hashcount_cases(ctx):
+    """The loader's hash-count test (torrent.rs) through Torrent::from_bytes vs the model's load,
+    on totals up to far above 2^64 with tiny piece lengths (expected piece counts >= 2^64)."""
+    import docgen
+    rng = vlib.rng_for(ctx["seed"], "C06hc")
+    docs = []
+    big = [U64, U64 - 1, 2 ** 63, 2 ** 32, 3, 1, 0]
+    for _ in range(400 if ctx["tier"] == "quick" else 4000):
+        nf = rng.randint(1, 4)
+        lens = [rng.choice(big) for _ in range(nf)]
+        tot = sum(lens)
+        L = rng.choice([1, 1, 2, 3, 2 ** 32, U64, max(1, tot // 2), 0])
+        want = 0 if tot == 0 else (ceil_div(tot, L) if L else 0)
+        nh = rng.choice([want % (2 ** 64), want % (2 ** 64), want, want + 1, max(0, want - 1), 0, 1, 2])
+        nh = min(nh, 5)
+        info = {b"name": b"n", b"piece length": L, b"pieces": b"\x07" * (20 * nh), b"files": [{b"length": x, b"path": [b"f%d" % i]} for i, x in enumerate(lens)]}
+        docs.append(docgen.enc({b"info": info}))
+    return ["q%d %s" % (i, d.hex()) for i, d in enumerate(docs)]
+
+
 def correspondence(ctx):
+    hc = hashcount_cases(ctx)
+    hci = vlib.run_sharded(ctx["harness"], "load", hc)
+    hcm = vlib.run_sharded(ctx["driver"], "load", hc)
+    hc_dis = vlib.compare(hc, hci, hcm)
     cases, dist = gen_cases(ctx)
+    dist["loader_hash_count"] = len(hc)
     impl = vlib.run_sharded(ctx["harness"], "layout", cases)
     model = vlib.run_sharded(ctx["driver"], "layout", cases)
     dis = vlib.compare(cases, impl, model)
     findings, broken = [], []
+    for d in hc_dis[:5]:
+        import docgen
+        verdict, want = docgen.ref_load(bytes.fromhex(d["case"].split()[1]))
+        findings.append({"case": d["case"], "impl": d["impl"], "model": d["model"], "reference": want,
+                         "violated_clause": "the loader's hash-count test differs from ceil(total / piece length): a torrent %s although the reference says %s" % ("loads" if d["impl"].startswith("ok") else "is refused", verdict)})
     # the independent oracle is also run on every agreeing case: model and implementation could be wrong together
     agree = set(c.split()[0] for c in cases) - set(d["case"].split()[0] for d in dis)
     for c in cases:
